@@ -27,6 +27,28 @@ for p in props:
         print('| %s | %s | claimed | %s | %s |' % (pid, p['title'], (claimed[pid]['level_claimed']['category'] if isinstance(claimed[pid]['level_claimed'], dict) else claimed[pid]['level_claimed']), b.replace('|', '/')))
     else:
         print('| %s | %s | not applicable / not decided | - | see MANIFEST.not_applicable |' % (pid, p['title']))
+print('\n### 9.1b What each claimed check assumes, stubs and leaves outside (from the harness META)\n')
+for p in props:
+    pid = p['id']
+    if pid not in claimed:
+        continue
+    try:
+        h = importlib.import_module('harness.' + pid.lower())
+        M = h.META
+    except Exception:
+        continue
+    print('- **%s** — %s' % (pid, M.get('level_text', '').strip()))
+    if M.get('level_note'):
+        print('  - limits: %s' % M['level_note'])
+    if M.get('assumptions'):
+        print('  - assumes: %s' % '; '.join(M['assumptions']))
+    if M.get('stubs'):
+        print('  - stubs: %s' % '; '.join(M['stubs']))
+    if M.get('outside'):
+        print('  - outside the claim: %s' % '; '.join(M['outside']))
+    b = M.get('bounds', {})
+    if b.get('thorough'):
+        print('  - thorough tier: %s' % b['thorough'])
 print('\n### 9.5 Seeded changes and the checks that catch them\n')
 print('| seed | caught by |')
 print('|---|---|')
